@@ -104,6 +104,23 @@ fn main() {
             let code = finish(&prop, tier, seed, t0, out, Some(&p.spaces));
             std::process::exit(code);
         }
+        // probe: parse a JSONPath text with jsonb, show the AST and run it on a JSON document
+        "path" => {
+            let text = args[2].clone();
+            let doc = args.get(3).cloned().unwrap_or("null".into());
+            let r = harness::guard(|| jsonb::jsonpath::parse_json_path(text.as_bytes()).map(|p| format!("{:?}", p)));
+            println!("parse: {:?}", r.map_err(|p| harness::panic_class(&p)));
+            if let Ok(p) = jsonb::jsonpath::parse_json_path(text.as_bytes()) {
+                let bytes = jsonb::parse_value(doc.as_bytes()).expect("bad JSON document").to_vec();
+                let r = harness::guard(|| {
+                    let sel = jsonb::jsonpath::Selector::new(p.clone(), jsonb::jsonpath::Mode::All);
+                    let (mut d, mut o) = (vec![], vec![]);
+                    let r = sel.select(&bytes, &mut d, &mut o);
+                    (format!("{:?}", r), d, o)
+                });
+                println!("select: {:?}", r.map_err(|p| harness::panic_class(&p)));
+            }
+        }
         "replay" => {
             let body = std::fs::read_to_string(&args[2]).expect("cannot read replay file");
             let v: serde_json::Value = serde_json::from_str(&body).expect("bad replay file");
